@@ -166,11 +166,11 @@ Proof. unfold doomed. intro H. apply andb_true_iff in H. destruct H as [H _]. ap
 Lemma loop_spec (todo : list entry) : forall (fs : list entry) (n : N) (m : list str),
   NoDup (map name fs) -> NoDup (map name todo) ->
   (forall e, In e todo -> doomed e = true -> In e fs) ->
-  clean_loop true todo fs n m =
+  clean_loop true true todo fs n m 0 =
   Cleaned (filter (survives todo) fs) (n + N.of_nat (length (filter doomed todo))) (m ++ doomed_names todo).
 Proof.
   induction todo as [|e rest IH]; intros fs n m Hfs Htodo Hin.
-  - cbn [clean_loop filter length]. unfold doomed_names. cbn [filter map].
+  - cbn [clean_loop filter length N.eqb]. unfold doomed_names. cbn [filter map].
     rewrite app_nil_r. cbn [N.of_nat]. rewrite N.add_0_r. f_equal.
     symmetry. apply filter_all. intros x _. reflexivity.
   - cbn [map] in Htodo. inversion Htodo as [|? ? He Hrest]; subst.
@@ -303,6 +303,91 @@ Proof.
     unfold doomed_names. apply Permutation_map. exact Hf.
   - intros e H _. apply Hsame. exact H.
 Qed.
+
+(* ---- a remove_file that fails does not stop the sweep (fixes/clean-continues-after-failure.diff) ---- *)
+
+(* In the model's filesystem the one way remove_file fails on a listed entry is EISDIR.  The loop with
+   `keep_going` and WITHOUT the directory test meets it on every directory named *.mmm: for EVERY
+   directory, every non-directory with extension mmm is removed all the same -- also those listed after
+   the failure --, the count and the `clean` lines are those of the files removed, every other entry is
+   left as it was, and the outcome says how many removals failed (exit 1 exactly when there was one). *)
+
+Definition stuck (e : entry) : bool := is_dir e && ext_is_mmm (name e).
+
+Definition finish (fs : list entry) (n : N) (m : list str) (k : N) : outcome :=
+  if k =? 0 then Cleaned fs n m else Incomplete fs n m k.
+
+Lemma remove_file_dir (fs : list entry) (e : entry) :
+  NoDup (map name fs) -> In e fs -> is_dir e = true -> remove_file (name e) fs = RmErr EISDIR.
+Proof.
+  induction fs as [|x t IH]; intros Hnd Hin Hk; [destruct Hin|].
+  cbn [map] in Hnd. inversion Hnd as [|? ? Hx Ht]; subst.
+  cbn [remove_file]. destruct (str_eqb (name x) (name e)) eqn:E.
+  - apply cl_str_eqb_eq in E.
+    assert (x = e) as ->.
+    { destruct Hin as [H|H]; [exact H|]. exfalso. apply Hx. rewrite E. apply in_map_name. exact H. }
+    unfold is_dir in Hk. destruct (ekind e); try discriminate. reflexivity.
+  - destruct Hin as [H|H]; [subst; rewrite cl_str_eqb_refl in E; discriminate|].
+    rewrite (IH Ht H Hk). reflexivity.
+Qed.
+
+Lemma loop_keep_going_spec (todo : list entry) : forall (fs : list entry) (n : N) (m : list str) (k : N),
+  NoDup (map name fs) -> NoDup (map name todo) ->
+  (forall e, In e todo -> In e fs) ->
+  clean_loop false true todo fs n m k =
+  finish (filter (survives todo) fs) (n + N.of_nat (length (filter doomed todo))) (m ++ doomed_names todo)
+         (k + N.of_nat (length (filter stuck todo))).
+Proof.
+  induction todo as [|e rest IH]; intros fs n m k Hfs Htodo Hin.
+  - cbn [clean_loop filter length]. unfold doomed_names, finish. cbn [filter map].
+    rewrite app_nil_r. cbn [N.of_nat]. rewrite !N.add_0_r.
+    assert (Hf : filter (survives []) fs = fs) by (apply filter_all; intros x _; reflexivity).
+    rewrite Hf. reflexivity.
+  - cbn [map] in Htodo. inversion Htodo as [|? ? He Hrest]; subst.
+    cbn [clean_loop andb]. destruct (ext_is_mmm (name e)) eqn:Ex.
+    + destruct (is_dir e) eqn:Ed.
+      * (* remove_file fails: counted, the loop goes on *)
+        assert (Hdo : doomed e = false) by (unfold doomed; rewrite Ed; reflexivity).
+        assert (Hst : stuck e = true) by (unfold stuck; rewrite Ed, Ex; reflexivity).
+        rewrite (remove_file_dir fs e Hfs (Hin e (or_introl eq_refl)) Ed).
+        rewrite (IH fs n m (k + 1) Hfs Hrest (fun e' H1 => Hin e' (or_intror H1))).
+        unfold doomed_names, survives, doomed_names. cbn [filter]. rewrite Hdo, Hst. cbn [length].
+        rewrite Nat2N.inj_succ. f_equal. lia.
+      * assert (Hdo : doomed e = true) by (unfold doomed; rewrite Ed, Ex; reflexivity).
+        assert (Hst : stuck e = false) by (unfold stuck; rewrite Ed; reflexivity).
+        rewrite (remove_file_ok fs e Hfs (Hin e (or_introl eq_refl)) Ed).
+        rewrite IH.
+        -- unfold doomed_names. cbn [filter]. rewrite Hdo, Hst. cbn [map length].
+           rewrite filter_filter. rewrite <- app_assoc. cbn [app].
+           rewrite Nat2N.inj_succ. f_equal; [|lia].
+           apply filter_ext. intro x. unfold survives, other_name, doomed_names. cbn [filter]. rewrite Hdo.
+           cbn [map mem_str existsb]. unfold mem_str. rewrite negb_orb. reflexivity.
+        -- apply NoDup_map_filter. exact Hfs.
+        -- exact Hrest.
+        -- intros e' H1. apply filter_In. split; [apply Hin; right; exact H1|].
+           unfold other_name. apply negb_true_iff. apply cl_str_eqb_neq. intro K. apply He.
+           rewrite <- K. apply in_map_name. exact H1.
+    + assert (Hdo : doomed e = false) by (unfold doomed; rewrite Ex; apply andb_false_r).
+      assert (Hst : stuck e = false) by (unfold stuck; rewrite Ex; apply andb_false_r).
+      rewrite (IH fs n m k Hfs Hrest (fun e' H1 => Hin e' (or_intror H1))).
+      unfold doomed_names, survives, doomed_names. cbn [filter]. rewrite Hdo, Hst. reflexivity.
+Qed.
+
+Theorem keep_going_sweeps_everything : forall es : list entry, NoDup (map name es) ->
+  clean_keep_going_only es =
+  finish (filter spared es) (N.of_nat (length (filter doomed es))) (map name (filter doomed es))
+         (N.of_nat (length (filter stuck es))).
+Proof.
+  intros es Hnd. unfold clean_keep_going_only. rewrite loop_keep_going_spec; [|exact Hnd|exact Hnd|auto].
+  rewrite !N.add_0_l. cbn [app]. rewrite (survives_spared es es Hnd); [reflexivity|tauto].
+Qed.
+
+(* d.mmm/ listed BEFORE a.mmm: the failure is counted, a.mmm is removed and reported, exit 1 *)
+Example keep_going_witness :
+  clean_keep_going_only [ {| name := [100; 46; 109; 109; 109]; ekind := KDir; content := 1 |};
+                          {| name := [97; 46; 109; 109; 109]; ekind := KFile; content := 2 |} ]
+  = Incomplete [ {| name := [100; 46; 109; 109; 109]; ekind := KDir; content := 1 |} ] 1 [ [97; 46; 109; 109; 109] ] 1.
+Proof. vm_compute. reflexivity. Qed.
 
 (* ---- the code as found (before fixes/clean-skip-dirs.diff): F12 ------------------------------ *)
 
